@@ -28,6 +28,7 @@ type model struct {
 	expelOK  map[string]bool   // target -> an expel operation is carried by the INIT voteproof
 	joinOps  int
 	eligible int
+	policyOK bool // some policy operation carries >= threshold distinct member signatures
 }
 
 func memberSigners(m *model, signs []prig.SignMeta) int {
@@ -98,6 +99,10 @@ func buildModel(c *prig.Case) *model {
 			if prev, found := m.joinWhy[o.Target]; !found || joinRank[why] > joinRank[prev] {
 				m.joinWhy[o.Target] = why
 			}
+		case "policy":
+			if memberSigners(m, o.Signs)*1000 >= m.t10*m.n {
+				m.policyOK = true
+			}
 		case "disjoin":
 			if pub, ok := m.members[o.Target]; ok {
 				for _, s := range o.Signs {
@@ -119,10 +124,11 @@ func buildModel(c *prig.Case) *model {
 // ---- what the real code produced ----
 
 type outcome struct {
-	Changed bool
-	Height  int64
-	Nodes   []string // "addr|pub|start" in state order
-	Err     string
+	PolicyChanged bool
+	Changed       bool
+	Height        int64
+	Nodes         []string // "addr|pub|start" in state order
+	Err           string
 }
 
 func (o outcome) canon() string {
@@ -156,9 +162,11 @@ func process(b *prig.Block, workers int64) outcome {
 
 	_, states, _ := res.Writer.FS.Snapshot()
 
+	_, policyChanged := states[isaac.NetworkPolicyStateKey]
+
 	st, found := states[isaac.SuffrageStateKey]
 	if !found {
-		return outcome{}
+		return outcome{PolicyChanged: policyChanged}
 	}
 
 	v, ok := st.Value().(base.SuffrageNodesStateValue)
@@ -166,7 +174,7 @@ func process(b *prig.Block, workers int64) outcome {
 		return outcome{Err: fmt.Sprintf("suffrage state value is %T", st.Value())}
 	}
 
-	out := outcome{Changed: true, Height: int64(v.Height())}
+	out := outcome{Changed: true, Height: int64(v.Height()), PolicyChanged: policyChanged}
 	for _, n := range v.Nodes() {
 		out.Nodes = append(out.Nodes, fmt.Sprintf("%s|%s|%d", n.Address(), n.Publickey(), n.Start()))
 	}
@@ -249,6 +257,14 @@ func TestC17(t *testing.T) {
 			witness := map[string]any{
 				"case": i, "permutation": res.perms[k], "height": m.height, "threshold": float64(m.t10) / 10,
 				"members": m.members, "operations": c.Metas, "expels": c.EMetas, "result": o,
+			}
+
+			if o.PolicyChanged {
+				r.Count("blocks_policy_changed", 1)
+
+				if !m.policyOK { // outside the statement of C17 (suffrage only): reported, not judged
+					r.Count("info_policy_changed_below_threshold_of_distinct_members", 1)
+				}
 			}
 
 			switch {
